@@ -128,6 +128,9 @@ type Options struct {
 	// interface field owned by different subgraphs for different implementers),
 	// "provides-on-shareable" (@provides on a field that another subgraph can also resolve).
 	Allow map[string]bool
+	// Exclude keeps a class out although its finding is repaired (a check whose own recorded
+	// finding is reached through that class).
+	Exclude map[string]bool
 }
 
 // Gen draws a layout.
@@ -286,7 +289,7 @@ func Gen(t *rapid.T, o Options) *Layout {
 		for _, fn := range fnames {
 			f := ot.fieldSet[fn]
 			f.owners = []int{owner("own")}
-			if hasS(i1Fields, fn) && hasS(i1Impl, n) && !isScalarName(f.named) && !o.Allow["split-iface-composite"] {
+			if hasS(i1Fields, fn) && hasS(i1Impl, n) && !isScalarName(f.named) && !allowed(o, "split-iface-composite") {
 				// composite interface field: same owner for every implementer
 				if i1Owner < 0 {
 					i1Owner = f.owners[0]
@@ -410,7 +413,7 @@ func Gen(t *rapid.T, o Options) *Layout {
 			if rapid.IntRange(0, 2).Draw(t, "prov") != 0 {
 				continue
 			}
-			if hasS(i1Fields, f.name) && e.entity && hasS(i1Impl, e.name) && !o.Allow["provides-on-iface-field"] {
+			if hasS(i1Fields, f.name) && e.entity && hasS(i1Impl, e.name) && !allowed(o, "provides-on-iface-field") {
 				m.feat["excluded:provides-on-iface-field"] = true
 				continue
 			}
@@ -822,4 +825,12 @@ func (m *model) build() *Layout {
 	sort.Strings(l.Features)
 	sort.Strings(l.KeyScalars)
 	return l
+}
+
+// repaired lists layout classes whose finding was repaired in /repo by a fix: commit: they
+// are generated again by default.
+var repaired = map[string]bool{"split-iface-composite": true, "provides-on-iface-field": true}
+
+func allowed(o Options, class string) bool {
+	return (o.Allow[class] || repaired[class]) && !o.Exclude[class]
 }
